@@ -562,3 +562,73 @@ def r13_lazy_chain(ctx, rule='R13z'):
         loops = [n for n in own_nodes(g.node) if isinstance(n, (ast.For, ast.While))]
         run.check(not loops, rule, g.where, g.qualname, 'no loop outside the deferred function',
                   'overriding get_iterator iterates eagerly')
+
+
+def r13_no_pull_after_handover(ctx, rule='R13h'):
+    """A stream a step has handed downstream (yield s / yield wrap(s)) belongs to the consumer: the step itself must not read it
+    afterwards.  Draining it `to make the output complete` pulls the whole rest of the source with nothing delivered as soon as a
+    later step stops early, so rows pulled minus rows delivered is no longer bounded by the sample (and an unbounded source never
+    ends)."""
+    from sa.model import is_drain_call
+    run = ctx.run
+    run.rule(rule, 'NO-PULL-AFTER-HANDOVER: in every generator of a non-buffering module, a stream that was yielded downstream (as '
+                   'itself or wrapped) is not drained, materialised or iterated by the step in the statements that follow the yield: '
+                   'how far a stream is read is decided by its consumer alone')
+    n = 0
+    for fi in sorted(ctx.repo.functions.values(), key=lambda f: f.qualname):
+        if isinstance(fi.node, ast.Lambda) or not fi.is_generator or fi.module.name in OUT_OF_SCOPE_MODULES or \
+                fi.module.name.startswith('dataflows.processors.parsers'):
+            continue
+        blocks = []
+        for nd in [fi.node] + list(own_nodes(fi.node)):
+            for f_ in ('body', 'orelse', 'finalbody'):
+                b = getattr(nd, f_, None)
+                if isinstance(b, list) and b and isinstance(b[0], ast.stmt):
+                    blocks.append(b)
+            if isinstance(nd, ast.Try):
+                for h in nd.handlers:
+                    blocks.append(h.body)
+        for b in blocks:
+            for i, st in enumerate(b):
+                if not (isinstance(st, ast.Expr) and isinstance(st.value, ast.Yield) and st.value.value is not None):
+                    continue
+                v = st.value.value
+                handed = set()
+                if isinstance(v, ast.Name):
+                    handed.add(v.id)
+                elif isinstance(v, ast.Call):
+                    handed |= {a.id for a in list(v.args) + [k.value for k in v.keywords] if isinstance(a, ast.Name)}
+                if not handed:
+                    continue
+                # a name that holds the wrapper of a handed stream is the same stream: w = wrap(s); yield w
+                for prev in b[:i]:
+                    if isinstance(prev, ast.Assign) and len(prev.targets) == 1 and isinstance(prev.targets[0], ast.Name) and \
+                            prev.targets[0].id in handed and isinstance(prev.value, ast.Call):
+                        handed |= {a.id for a in prev.value.args if isinstance(a, ast.Name)}
+                n += 1
+                bad = None
+                for later in b[i + 1:]:
+                    if any(isinstance(t, ast.Name) and t.id in handed for a in ast.walk(later) if isinstance(a, (ast.Assign, ast.AugAssign))
+                           for t in (a.targets if isinstance(a, ast.Assign) else [a.target])):
+                        break           # rebound: a different object from here on
+                    for x in ast.walk(later):
+                        if isinstance(x, (ast.FunctionDef, ast.Lambda)):
+                            continue
+                        if isinstance(x, ast.Call) and x.args and isinstance(x.args[0], ast.Name) and x.args[0].id in handed and \
+                                (is_drain_call(ctx.res, x) or ctx.res.external_name(x) in MATERIALISERS or
+                                 ctx.res.external_name(x) in ('collections.deque', 'builtins.next')):
+                            bad = x
+                        if isinstance(x, (ast.For, ast.comprehension)) and isinstance(x.iter, ast.Name) and x.iter.id in handed:
+                            bad = x.iter
+                        if isinstance(x, ast.YieldFrom) and isinstance(x.value, ast.Name) and x.value.id in handed:
+                            bad = x
+                    if bad is not None:
+                        break
+                if bad is None:
+                    run.ok(rule, where(ctx.repo, st), '%s: %s' % (fi.qualname, u(st)[:80]), 'not read again by the step')
+                else:
+                    run.fail(rule, where(ctx.repo, bad), fi.qualname, 'read after hand-over: %s' % u(bad)[:80],
+                             'the step reads a stream it has already yielded downstream (%s): when a later step stops early the '
+                             'whole rest of the source is pulled with nothing delivered - look-ahead grows with the data'
+                             % ', '.join(sorted(handed)))
+    return n
